@@ -188,7 +188,7 @@ def check(res, tier, replay=None):
     res.assumptions = ["clock_gettime is replaced by a deterministic non-decreasing counter",
                        "write() completes (faults are C10's subject)"]
     prep = engine.prepare(res, drivers=("drv_rt",))
-    proved = vcommon.prove(res, "C02")
+    proved = vcommon.prove(res, ["C02", "C02Emu"])
     found = False
     if prep.bdir and prep.driver_ok:
         r = vcommon.rng("c02")
